@@ -414,10 +414,8 @@ class SumAggregator:
                 for blit in stm.body:
                     if blit.ast_type == ASTType.Literal:
                         atom = blit.atom
-                        if atom.ast_type == ASTType.BodyAggregate and atom.function in (
-                            AggregateFunction.Sum,
-                            AggregateFunction.SumPlus,
-                        ):
+                        # not #sum+: it skips negative weights, the links of a chain do not tell which they replace
+                        if atom.ast_type == ASTType.BodyAggregate and atom.function == AggregateFunction.Sum:
                             newatom = atom.update(elements=self._replace_elements(atom.elements, ret))
                             newbody.append(blit.update(atom=newatom))
                         else:
